@@ -262,7 +262,7 @@ func (w *crashWork) cleanRestart(s *Sess, d *CDisk, res *CrashRes) int {
 	gs := dumpString(got)
 	j := -1
 	for k := len(w.dumps) - 1; k >= lo; k-- {
-		if w.dumps[k] == gs {
+		if w.dumps[k] == gs && timesAgree(w.snaps[k], got) {
 			j = k
 			break
 		}
@@ -333,7 +333,7 @@ func (w *crashWork) evalImage(j imageJob, record bool) (out imageOut) {
 		lo, hi = j.want, j.want
 	}
 	for k := hi; k >= lo; k-- {
-		if w.dumps[k] == gs {
+		if w.dumps[k] == gs && timesAgree(w.snaps[k], got) {
 			out.match = k
 			break
 		}
@@ -620,4 +620,26 @@ func evDesc(e DiskEv) string {
 		return "after a barrier"
 	}
 	return fmt.Sprintf("after write of block %d", e.Addr)
+}
+
+// timesAgree: the tree dump does not contain times; two reference states that
+// differ only in a client-set atime/mtime are told apart here.
+func timesAgree(m *Model, got []DumpEnt) bool {
+	byFH := map[string]DumpEnt{}
+	for _, e := range got {
+		byFH[string(e.FH)] = e
+	}
+	for _, o := range m.LiveObjs() {
+		if o.FH == nil || (!o.AtimeC && !o.MtimeC) {
+			continue
+		}
+		e, ok := byFH[string(o.FH)]
+		if !ok {
+			continue
+		}
+		if (o.AtimeC && e.Atime != o.Atime) || (o.MtimeC && e.Mtime != o.Mtime) {
+			return false
+		}
+	}
+	return true
 }
